@@ -181,6 +181,7 @@ type edit struct {
 	from, to int
 	segs     []seg
 	seq      int
+	prio     int // order among insertions at the same offset (lower first)
 }
 
 type rewriter struct {
@@ -199,8 +200,13 @@ type rewriter struct {
 func (r *rewriter) off(p token.Pos) int { return r.tf.Offset(p) }
 
 func (r *rewriter) add(from, to token.Pos, segs ...seg) {
+	r.addP(1, from, to, segs...)
+}
+
+// addP adds an edit with an explicit priority among insertions at the same offset.
+func (r *rewriter) addP(prio int, from, to token.Pos, segs ...seg) {
 	r.seq++
-	r.edits = append(r.edits, &edit{from: r.off(from), to: r.off(to), segs: segs, seq: r.seq})
+	r.edits = append(r.edits, &edit{from: r.off(from), to: r.off(to), segs: segs, seq: r.seq, prio: prio})
 	r.used = true
 }
 
@@ -237,6 +243,9 @@ func (r *rewriter) render(a, b int, sb *strings.Builder) {
 		}
 		if in[i].to != in[j].to {
 			return in[i].to > in[j].to // outer first
+		}
+		if in[i].prio != in[j].prio {
+			return in[i].prio < in[j].prio
 		}
 		return in[i].seq < in[j].seq
 	})
@@ -305,6 +314,7 @@ func rewriteFile(p *packages.Package, f *ast.File, name string) error {
 			})
 		}
 	}
+	r.atomics(f)
 	if !r.used {
 		return nil
 	}
@@ -313,6 +323,39 @@ func rewriteFile(p *packages.Package, f *ast.File, name string) error {
 	var sb strings.Builder
 	r.render(0, len(src), &sb)
 	return os.WriteFile(name, []byte(sb.String()), 0o644)
+}
+
+// atomics makes every sync/atomic operation an interleaving point: a call with one result is
+// wrapped as zzsimhook.Yv(site, call) (the yield happens after the operation), which also turns
+// a loop that spins on an atomic flag into a sequence of scheduler steps the simulator can see.
+func (r *rewriter) atomics(f *ast.File) {
+	ast.Inspect(f, func(n ast.Node) bool {
+		call, ok := n.(*ast.CallExpr)
+		if !ok {
+			return true
+		}
+		var fn *types.Func
+		switch fun := call.Fun.(type) {
+		case *ast.SelectorExpr:
+			if sel := r.pkg.TypesInfo.Selections[fun]; sel != nil && sel.Kind() == types.MethodVal {
+				fn, _ = sel.Obj().(*types.Func)
+			} else if sel == nil {
+				fn, _ = r.pkg.TypesInfo.Uses[fun.Sel].(*types.Func)
+			}
+		}
+		if fn == nil || fn.Pkg() == nil || fn.Pkg().Path() != "sync/atomic" {
+			return true
+		}
+		sig := fn.Type().(*types.Signature)
+		if sig.Results().Len() != 1 {
+			return true
+		}
+		site := r.site(call.Pos()) + "#atomic"
+		r.addP(1, call.Pos(), call.Pos(), lit(fmt.Sprintf("%s.Yv(%q, ", hookName, site)))
+		r.addP(0, call.End(), call.End(), lit(")"))
+		st.Rewritten["atomic"]++
+		return true
+	})
 }
 
 func (r *rewriter) block(b *ast.BlockStmt) {
@@ -424,10 +467,10 @@ func (r *rewriter) simple(s ast.Stmt, inList bool) {
 		return
 	}
 	site := r.site(s.Pos())
-	r.add(s.Pos(), s.Pos(), lit(fmt.Sprintf("%s.Yield(%q); ", hookName, site+"#"+kind)))
+	r.addP(0, s.Pos(), s.Pos(), lit(fmt.Sprintf("%s.Yield(%q); ", hookName, site+"#"+kind)))
 	st.Rewritten["chan_"+kind]++
 	if _, isRet := s.(*ast.ReturnStmt); hasRecv && !isRet {
-		r.add(s.End(), s.End(), lit(fmt.Sprintf("; %s.Yield(%q)", hookName, site+"#recvd")))
+		r.addP(2, s.End(), s.End(), lit(fmt.Sprintf("; %s.Yield(%q)", hookName, site+"#recvd")))
 	}
 }
 
@@ -615,7 +658,7 @@ func (r *rewriter) rangeStmt(s *ast.RangeStmt, inList, labeled bool) {
 		segs = append(segs, lit(" _ = "+keyName+";"))
 		segs = append(segs, lit(r.newlines(s.Pos(), s.Body.Lbrace)))
 		r.add(s.Pos(), s.Body.Lbrace+1, segs...)
-		r.add(s.End(), s.End(), lit(" }"))
+		r.addP(3, s.End(), s.End(), lit(" }"))
 		st.Rewritten["map_range"]++
 	}
 }
@@ -792,7 +835,7 @@ func (r *rewriter) selectStmt(s *ast.SelectStmt, inList, labeled bool) {
 		r.add(cc.Pos(), cc.Colon+1, h...)
 		r.stmts(cc.Body)
 	}
-	r.add(s.End(), s.End(), lit(" }"))
+	r.addP(3, s.End(), s.End(), lit(" }"))
 	st.Rewritten["select"]++
 	_ = constant.Int
 }
